@@ -370,9 +370,17 @@ func c12FlowRun(f c12Family) {
 
 	vAssert(okOutRes, "flow: an offered HTLC with an output on the confirmed commitment gets exactly one outgoing resolver and is not failed back once that commitment has confirmed")
 	vAssert(okOutDust, "flow: an offered HTLC that is dust on the confirmed commitment is failed back upstream at most once over the whole close and gets no resolver")
-	vAssert(okOutDustLeast, "flow: an offered HTLC that is dust on the confirmed commitment is failed back upstream (at least once) by the time the resolvers are launched")
+	if broadcast {
+		vAssert(okOutDustLeast, "flow: after our own broadcast, an offered HTLC that is dust on the confirmed commitment is failed back upstream (at least once) by the time the resolvers are launched")
+	} else {
+		vAssert(okOutDustLeast, "flow: without a broadcast of ours, an offered HTLC that is dust on the confirmed commitment is failed back upstream (at least once) by the time the resolvers are launched")
+	}
 	vAssert(okDangling, "flow: an offered HTLC that is only on a non-confirmed commitment is failed back upstream at most once over the whole close, never when its preimage is known, and gets no resolver")
-	vAssert(okDanglingLeast, "flow: an offered HTLC that is only on a non-confirmed commitment and whose preimage is unknown is failed back upstream (at least once) by the time the resolvers are launched")
+	if broadcast {
+		vAssert(okDanglingLeast, "flow: after our own broadcast, an offered HTLC that is only on a non-confirmed commitment and whose preimage is unknown is failed back upstream (at least once) by the time the resolvers are launched")
+	} else {
+		vAssert(okDanglingLeast, "flow: without a broadcast of ours, an offered HTLC that is only on a non-confirmed commitment and whose preimage is unknown is failed back upstream (at least once) by the time the resolvers are launched")
+	}
 	vAssert(okInRes, "flow: a received HTLC with an output on the confirmed commitment gets exactly one incoming resolver")
 	vAssert(okInDust, "flow: a received dust HTLC of the confirmed commitment is closed out exactly once without resolver")
 	vAssert(okInOther, "flow: a received HTLC that is not on the confirmed commitment gets no resolver")
